@@ -53,7 +53,7 @@ def check_gf(c, m, p, im, r, beta, route, rep):
             c.evaluations += 1
             if not (abs(got - want) <= tol):
                 c.violation("model %s beta=%s %s: G_%d%d(%s=%s) = %s, definition gives %s (allowed deviation %s)" % (
-                    json.dumps({k: m[k] for k in ("M", "eps", "U", "rot", "bog")}), beta, route, o["i"], o["j"], kind, arg, mp.nstr(got, 12), mp.nstr(want, 12), mp.nstr(tol, 3)),
+                    json.dumps({k: m[k] for k in ("M", "eps", "U", "rot", "bog", "ph")}), beta, route, o["i"], o["j"], kind, arg, mp.nstr(got, 12), mp.nstr(want, 12), mp.nstr(tol, 3)),
                     dict(rep, component=[o["i"], o["j"]], arg=[kind, arg]), cls="value")
                 return False
         if terms:
@@ -72,6 +72,7 @@ def main():
         ms += exact.catalogue(rng, Ms=(4,), per_M=4, prefix="F")
     for k in range(8 if not thorough else 60):
         ms.append(exact.random_model(rng, "R%d" % k, rng.choice([2, 3, 3, 4] if not thorough else [2, 3, 4, 4])))
+    ms += exact.with_phases(rng, ms)[: (6 if not thorough else 40)]      # gauge-phased copies: complex Hamiltonians, complex build
     for m in ms:
         M = m["M"]
         m["gf"] = [[i, j] for i in range(M) for j in range(M)]
@@ -82,7 +83,7 @@ def main():
         sys.exit(2)
     betas = ["0.1", "0.6931471805599453", "1.0", "7.3", "50.0"] if thorough else ["0.1", "1.0", "7.3", "50.0"]
     # phase 1: index tables
-    recs, crashed = pv.run_driver_resilient(exe, [exact.scenario(m, pred[m["id"]], queries=[{"q": "index"}]) for m in ms], timeout=3000)
+    recs, crashed = exact.run_split(exe, [exact.scenario(m, pred[m["id"]], queries=[{"q": "index"}]) for m in ms], ms)
     tabs = {r["id"]: r["tab"] for r in recs if r.get("e") == "Q" and "tab" in r}
     scen = []
     for m in ms:
@@ -97,7 +98,7 @@ def main():
             qs.append({"q": "gf", "beta": b, "pairs": pairs, "ns": NS[:4], "zs": ZS[:1], "via": "container", "tag": b, "fill_all": rng.random() < 0.5})
         m["_im"] = im
         scen.append(exact.scenario(m, pred[m["id"]], queries=qs))
-    recs, crashed = pv.run_driver_resilient(exe, scen, timeout=3000)
+    recs, crashed = exact.run_split(exe, scen, ms)
     byid = {}
     for r in recs:
         if r.get("e") == "Q":
